@@ -4,16 +4,17 @@ C11 — parsed rows depend only on the lines: invariant under chunking, threads,
 Property theorems only; the machinery lives in DmlcModel/Parse/{Lemmas,Spec,Block,Rows,Concat,Svm,Fm,Cuts}.lean.
 All theorems are generic in the numeric conversions `conv` (contract `Conv.Local`) and are about the
 model instantiated with `Fixes.current`, i.e. with the repairs the source is found to carry
-(`C11_source_is_repaired` stops compiling when one of the `fix:` commits of findings C11-F1..F4 is missing).
+(`C11_source_is_repaired` stops compiling when one of the `fix:` commits of findings C11-F1..F5 is missing).
 -/
 import DmlcModel.Parse.Fm
 import DmlcModel.Parse.Cuts
+import DmlcModel.Parse.Csv
 import DmlcModel.Parse.ConvSimple
 
 namespace DmlcModel.Props.C11
 open DmlcModel DmlcModel.Parse
 
-/-- the source carries the repairs of findings C11-F1..F4 (read off the source by `Gen.Parse.fix*`) -/
+/-- the source carries the repairs of findings C11-F1..F5 (read off the source by `Gen.Parse.fix*`) -/
 theorem C11_source_is_repaired : Fixes.current = Fixes.repaired := by decide
 
 /-- the rows `P::ParseBlock` + `GetBlock` + `operator[]` hand out for the block `[a, b)` of `mem` -/
@@ -41,19 +42,28 @@ theorem C11_block_is_concat_of_lines_libsvm (iw mode : Nat) :
     C11_block_is_concat_of_lines_statement (.libsvm iw mode) := by
   intro conv ⟨gR, gI, gQ, gC, hL⟩ t hb rss hl ha
   rw [rows_libsvm] at hl ⊢
-  exact (svm_lineFormat hL iw mode).concat_of_lines t hb rss hl ha
+  exact (svm_lineFormat hL iw mode).concat_of_lines t (fun _ _ => rfl) hb rss hl ha
 
 theorem C11_block_is_concat_of_lines_libfm (iw mode : Nat) :
     C11_block_is_concat_of_lines_statement (.libfm iw mode) := by
   intro conv ⟨gR, gI, gQ, gC, hL⟩ t hb rss hl ha
   rw [rows_libfm] at hl ⊢
-  exact (fm_lineFormat hL iw mode).concat_of_lines t hb rss hl ha
+  exact (fm_lineFormat hL iw mode).concat_of_lines t (fun _ _ => rfl) hb rss hl ha
 
-/-- the csv instance of the core statement is stated, not proved (see CONFIG['partial']): the csv line
-loop (BOM skip, end-of-line runs, cells) has no list specification yet; it is covered by
-correspondence + oracle only -/
+theorem rows_csv (conv : Conv) (prm : CsvParam) : rows (.csv prm) conv = csvRows Fixes.repaired conv prm := by
+  funext t; simp [rows, rowsAt, Format.parseBlock, csvRows, csvRowsAt, C11_source_is_repaired]
+
+/-- the csv instance of the core statement, for texts without a NUL byte inside (a NUL ends the C string the
+conversions read, which the locality contract of `conv.cell` does not cover).  "Blank line" for csv = empty
+line; a line that holds nothing but a UTF-8 BOM counts as empty (C11-F5). -/
 def C11_block_is_concat_of_lines_csv_statement (prm : CsvParam) : Prop :=
-  C11_block_is_concat_of_lines_statement (.csv prm)
+  ∀ (conv : Conv), conv.Local → ∀ (t : Bytes), (∀ b ∈ t, b ≠ 0) → t.length + 2 < 2 ^ 64 → ∀ (rss : List (List Row)),
+    (eolSplit t).mapM (rows (.csv prm) conv) = .ok rss → AgreeRows rss.flatten → rows (.csv prm) conv t = .ok rss.flatten
+
+theorem C11_block_is_concat_of_lines_csv (prm : CsvParam) : C11_block_is_concat_of_lines_csv_statement prm := by
+  intro conv ⟨gR, gI, gQ, gC, hL⟩ t hn hb rss hl ha
+  rw [rows_csv] at hl ⊢
+  exact (csv_lineFormat hL prm).concat_of_lines t (fun b hb' => by simpa [nonNulB] using hn b hb') hb rss hl ha
 
 /-! ### cuts at end-of-line bytes: thread slices, chunks, parts -/
 
@@ -67,13 +77,13 @@ def C11_cut_statement (f : Format) : Prop :=
       -- chunks and parts: the cut byte ends the left piece (C03: cuts fall directly after an end-of-line byte)
       rows f conv (x ++ [e]) = .ok rx ∧ rows f conv y = .ok ry
 
-theorem cut_of_lineFormat {rws : Bytes → Res (List Row)} {recS : Bytes → Res (Option LineRec)}
-    (F : LineFormat rws recS) (x y : Bytes) (e : UInt8) (he : isEolB e = true)
-    (hb : (x ++ e :: y).length + 2 < 2 ^ 64) (rss : List (List Row))
+theorem cut_of_lineFormat {good : UInt8 → Bool} {rws : Bytes → Res (List Row)} {recS : Bytes → Res (Option LineRec)}
+    (F : LineFormat good rws recS) (x y : Bytes) (e : UInt8) (he : isEolB e = true)
+    (hg : ∀ b ∈ x ++ e :: y, good b = true) (hb : (x ++ e :: y).length + 2 < 2 ^ 64) (rss : List (List Row))
     (hl : (eolSplit (x ++ e :: y)).mapM rws = .ok rss) (ha : AgreeRows rss.flatten) :
     ∃ rx ry, rws (x ++ e :: y) = .ok (rx ++ ry) ∧ rws x = .ok rx ∧ rws (e :: y) = .ok ry ∧
       rws (x ++ [e]) = .ok rx ∧ rws y = .ok ry := by
-  obtain ⟨rsx, rsy, _, _, _, _, h1, h2, h3, h4, h5⟩ := F.cut x y e he hb rss hl ha
+  obtain ⟨rsx, rsy, _, _, _, _, h1, h2, h3, h4, h5⟩ := F.cut x y e he hg hb rss hl ha
   exact ⟨rsx.flatten, rsy.flatten, h5, h1, h3, h2, h4⟩
 
 /-- two adjacent thread slices `[a,b)`, `[b,c)` of FillData (the cut `b` is the position of an end-of-line
@@ -81,12 +91,12 @@ byte, as `BackFindEndLine` returns it): their rows, in order, are the rows of `[
 theorem C11_thread_invariant_libsvm (iw mode : Nat) : C11_cut_statement (.libsvm iw mode) := by
   intro conv ⟨gR, gI, gQ, gC, hL⟩ x y e he hb rss hl ha
   rw [rows_libsvm] at hl ⊢
-  exact cut_of_lineFormat (svm_lineFormat hL iw mode) x y e he hb rss hl ha
+  exact cut_of_lineFormat (svm_lineFormat hL iw mode) x y e he (fun _ _ => rfl) hb rss hl ha
 
 theorem C11_thread_invariant_libfm (iw mode : Nat) : C11_cut_statement (.libfm iw mode) := by
   intro conv ⟨gR, gI, gQ, gC, hL⟩ x y e he hb rss hl ha
   rw [rows_libfm] at hl ⊢
-  exact cut_of_lineFormat (fm_lineFormat hL iw mode) x y e he hb rss hl ha
+  exact cut_of_lineFormat (fm_lineFormat hL iw mode) x y e he (fun _ _ => rfl) hb rss hl ha
 
 /-- **chunks** (any buffer size; C03: every chunk but the last of a part ends directly after an end-of-line byte —
 the hypothesis `isEolB p.2`): the rows of the chunks `xᵢ eᵢ`, `z`, in order, are the rows of the whole text -/
@@ -109,22 +119,22 @@ def C11_pieces_at_eol_statement (f : Format) : Prop :=
 theorem C11_thread_invariant_nary_libsvm (iw mode : Nat) : C11_pieces_at_eol_statement (.libsvm iw mode) := by
   intro conv ⟨gR, gI, gQ, gC, hL⟩ ps z he hb rss hl ha
   rw [rows_libsvm] at hl ⊢
-  exact (svm_lineFormat hL iw mode).pieces_at_eol ps z he hb rss hl ha
+  exact (svm_lineFormat hL iw mode).pieces_at_eol ps z he (fun _ _ => rfl) hb rss hl ha
 
 theorem C11_thread_invariant_nary_libfm (iw mode : Nat) : C11_pieces_at_eol_statement (.libfm iw mode) := by
   intro conv ⟨gR, gI, gQ, gC, hL⟩ ps z he hb rss hl ha
   rw [rows_libfm] at hl ⊢
-  exact (fm_lineFormat hL iw mode).pieces_at_eol ps z he hb rss hl ha
+  exact (fm_lineFormat hL iw mode).pieces_at_eol ps z he (fun _ _ => rfl) hb rss hl ha
 
 theorem C11_chunk_invariant_libsvm (iw mode : Nat) : C11_pieces_after_eol_statement (.libsvm iw mode) := by
   intro conv ⟨gR, gI, gQ, gC, hL⟩ ps z he hb rss hl ha
   rw [rows_libsvm] at hl ⊢
-  exact (svm_lineFormat hL iw mode).pieces_after_eol ps z he hb rss hl ha
+  exact (svm_lineFormat hL iw mode).pieces_after_eol ps z he (fun _ _ => rfl) hb rss hl ha
 
 theorem C11_chunk_invariant_libfm (iw mode : Nat) : C11_pieces_after_eol_statement (.libfm iw mode) := by
   intro conv ⟨gR, gI, gQ, gC, hL⟩ ps z he hb rss hl ha
   rw [rows_libfm] at hl ⊢
-  exact (fm_lineFormat hL iw mode).pieces_after_eol ps z he hb rss hl ha
+  exact (fm_lineFormat hL iw mode).pieces_after_eol ps z he (fun _ _ => rfl) hb rss hl ha
 
 /-- **parts** (any num_parts; C03_parts_cover: the parts tile the input and every part but the last ends directly
 after an end-of-line byte): the same statement one level up — the pieces are the parts, each of which is in turn
@@ -133,6 +143,37 @@ theorem C11_part_invariant_libsvm (iw mode : Nat) : C11_pieces_after_eol_stateme
   C11_chunk_invariant_libsvm iw mode
 theorem C11_part_invariant_libfm (iw mode : Nat) : C11_pieces_after_eol_statement (.libfm iw mode) :=
   C11_chunk_invariant_libfm iw mode
+
+/-- csv: thread slices (cuts at an end-of-line byte) and chunks / parts (cuts directly after one), any number of
+pieces, NUL-free text -/
+theorem C11_thread_invariant_nary_csv (prm : CsvParam) (conv : Conv) (hL : conv.Local)
+    (ps : List (UInt8 × Bytes)) (z : Bytes) (he : ∀ p ∈ ps, isEolB p.1 = true) (hn : ∀ b ∈ joinAt z ps, b ≠ 0)
+    (hb : (joinAt z ps).length + 3 < 2 ^ 64) (rss : List (List Row))
+    (hl : (eolSplit (joinAt z ps)).mapM (rows (.csv prm) conv) = .ok rss) (ha : AgreeRows rss.flatten) :
+    ∃ rz rs, rows (.csv prm) conv z = .ok rz ∧ ps.mapM (fun p => rows (.csv prm) conv (p.1 :: p.2)) = .ok rs ∧
+      rows (.csv prm) conv (joinAt z ps) = .ok (rz ++ rs.flatten) := by
+  obtain ⟨gR, gI, gQ, gC, hL⟩ := hL
+  rw [rows_csv] at hl ⊢
+  exact (csv_lineFormat hL prm).pieces_at_eol ps z he (fun b hb' => by simpa [nonNulB] using hn b hb') hb rss hl ha
+
+theorem C11_chunk_invariant_csv (prm : CsvParam) (conv : Conv) (hL : conv.Local)
+    (ps : List (Bytes × UInt8)) (z : Bytes) (he : ∀ p ∈ ps, isEolB p.2 = true) (hn : ∀ b ∈ joinAfter ps z, b ≠ 0)
+    (hb : (joinAfter ps z).length + 2 < 2 ^ 64) (rss : List (List Row))
+    (hl : (eolSplit (joinAfter ps z)).mapM (rows (.csv prm) conv) = .ok rss) (ha : AgreeRows rss.flatten) :
+    ∃ rs rz, ps.mapM (fun p => rows (.csv prm) conv (p.1 ++ [p.2])) = .ok rs ∧ rows (.csv prm) conv z = .ok rz ∧
+      rows (.csv prm) conv (joinAfter ps z) = .ok (rs.flatten ++ rz) := by
+  obtain ⟨gR, gI, gQ, gC, hL⟩ := hL
+  rw [rows_csv] at hl ⊢
+  exact (csv_lineFormat hL prm).pieces_after_eol ps z he (fun b hb' => by simpa [nonNulB] using hn b hb') hb rss hl ha
+
+/-- parts: the same statement one level up (see `C11_part_invariant_libsvm`) -/
+theorem C11_part_invariant_csv (prm : CsvParam) (conv : Conv) (hL : conv.Local)
+    (ps : List (Bytes × UInt8)) (z : Bytes) (he : ∀ p ∈ ps, isEolB p.2 = true) (hn : ∀ b ∈ joinAfter ps z, b ≠ 0)
+    (hb : (joinAfter ps z).length + 2 < 2 ^ 64) (rss : List (List Row))
+    (hl : (eolSplit (joinAfter ps z)).mapM (rows (.csv prm) conv) = .ok rss) (ha : AgreeRows rss.flatten) :
+    ∃ rs rz, ps.mapM (fun p => rows (.csv prm) conv (p.1 ++ [p.2])) = .ok rs ∧ rows (.csv prm) conv z = .ok rz ∧
+      rows (.csv prm) conv (joinAfter ps z) = .ok (rs.flatten ++ rz) :=
+  C11_chunk_invariant_csv prm conv hL ps z he hn hb rss hl ha
 
 /-! ### bytes after the block -/
 
@@ -181,7 +222,8 @@ theorem icbS_blank_comment (l rest : Bytes) (hl : ∀ b ∈ l, isBlankB b = true
 /-- a libsvm line of blanks, or of blanks followed by `#…`, contributes no row — wherever it stands,
 by `C11_block_is_concat_of_lines_libsvm` -/
 theorem C11_blank_and_comment_lines_libsvm (iw mode : Nat) (conv : Conv) (hL : conv.Local)
-    (l rest : Bytes) (hl : ∀ b ∈ l, isBlankB b = true) (hrest : ∀ b ∈ rest, isEolB b = false) :
+    (l rest : Bytes) (hl : ∀ b ∈ l, isBlankB b = true) (hrest : ∀ b ∈ rest, isEolB b = false)
+    (hbl : l.length + 2 < 2 ^ 64) (hbl2 : (l ++ 35 :: rest).length + 2 < 2 ^ 64) :
     rows (.libsvm iw mode) conv l = .ok [] ∧ rows (.libsvm iw mode) conv (l ++ 35 :: rest) = .ok [] := by
   obtain ⟨gR, gI, gQ, gC, hL⟩ := hL
   have F := svm_lineFormat hL iw mode
@@ -206,14 +248,15 @@ theorem C11_blank_and_comment_lines_libsvm (iw mode : Nat) (conv : Conv) (hL : c
     · exact hrest b hb
   rw [rows_libsvm]
   constructor
-  · rw [F.rows_single l hne, single, hnone l hne (icbS_blank_comment l rest hl).1]
+  · rw [F.rows_single l (fun _ _ => rfl) hbl hne, single, hnone l hne (icbS_blank_comment l rest hl).1]
     simp [Except.bind, rowsOf_build_nil]
-  · rw [F.rows_single _ h2, single, hnone _ h2 (icbS_blank_comment l rest hl).2]
+  · rw [F.rows_single _ (fun _ _ => rfl) hbl2 h2, single, hnone _ h2 (icbS_blank_comment l rest hl).2]
     simp [Except.bind, rowsOf_build_nil]
 
 /-- a libfm line of blanks contributes no row -/
 theorem C11_blank_lines_libfm (iw mode : Nat) (conv : Conv) (hL : conv.Local)
-    (l : Bytes) (hl : ∀ b ∈ l, isBlankB b = true) : rows (.libfm iw mode) conv l = .ok [] := by
+    (l : Bytes) (hl : ∀ b ∈ l, isBlankB b = true) (hbl : l.length + 2 < 2 ^ 64) :
+    rows (.libfm iw mode) conv l = .ok [] := by
   obtain ⟨gR, gI, gQ, gC, hL⟩ := hL
   have F := fm_lineFormat hL iw mode
   have hne : ∀ b ∈ l, isEolB b = false := fun b hb => by
@@ -224,8 +267,37 @@ theorem C11_blank_lines_libfm (iw mode : Nat) (conv : Conv) (hL : conv.Local)
     intro b hb
     have := hl b hb
     simp [isBlankB, Gen.Parse.isblank, notDigitCharB, Gen.Parse.isdigitchars] at this ⊢; omega
-  rw [rows_libfm, F.rows_single l hne, single]
+  rw [rows_libfm, F.rows_single l (fun _ _ => rfl) hbl hne, single]
   simp [fmRecS, fmLineS, pairS, hnd, bind, Except.bind, pure, Except.pure, Except.map, Gen.Parse.fmEmptyLine,
     rowsOf_build_nil]
+
+/-- csv: the rows of a block do not depend on the memory around it (the byte after the block readable and a NUL
+or an end-of-line byte; NUL-free block) -/
+theorem C11_trailing_bytes_irrelevant_csv (prm : CsvParam) (conv : Conv) (hL : conv.Local)
+    (mem mem' : Bytes) (a b a' b' : Nat) (t : Bytes) (hb : t.length + 2 < 2 ^ 64) (hn : ∀ x ∈ t, x ≠ 0)
+    (h : At mem a b t) (h' : At mem' a' b' t) (hT : Term mem b) (hT' : Term mem' b')
+    (hr : b < mem.length) (hr' : b' < mem'.length) (hb2 : b < 2 ^ 64) (hb2' : b' < 2 ^ 64) :
+    rowsAt (.csv prm) conv mem a b = rowsAt (.csv prm) conv mem' a' b' := by
+  obtain ⟨gR, gI, gQ, gC, hL⟩ := hL
+  have e1 := csv_block_eq_at hL prm h hT hr hb2 hb hn
+  have e2 := csv_block_eq_at hL prm h' hT' hr' hb2' hb hn
+  simp only [rowsAt, Format.parseBlock, C11_source_is_repaired]
+  simp only [csvRowsAt] at e1 e2
+  rw [e1, e2]
+
+/-- csv: an empty line, and a line that holds nothing but a UTF-8 BOM, contribute no row -/
+theorem C11_blank_lines_csv (prm : CsvParam) (conv : Conv) (hL : conv.Local) :
+    rows (.csv prm) conv [] = .ok [] ∧ rows (.csv prm) conv [239, 187, 191] = .ok [] := by
+  obtain ⟨gR, gI, gQ, gC, hL⟩ := hL
+  have F := csv_lineFormat hL prm
+  rw [rows_csv]
+  constructor
+  · rw [F.rows_single [] (by simp) (by simp) (by simp), single, F.nil]; simp [Except.bind, rowsOf_build_nil]
+  · rw [F.rows_single _ (by decide) (by simp) (by decide), single]
+    have : csvRecS gC prm [239, 187, 191] = .ok none := by
+      have hd : dropBOM ([239, 187, 191] : Bytes) = [] := by decide
+      have he : ([239, 187, 191] : Bytes).dropWhile isEolB = [239, 187, 191] := by decide
+      simp [csvRecS, csvLineS, he, hd, Except.map]
+    rw [this]; simp [Except.bind, rowsOf_build_nil]
 
 end DmlcModel.Props.C11
